@@ -196,12 +196,43 @@ def unroll(repo, f):
 _BITWISE = {"np.bitwise_or": ast.BitOr, "np.bitwise_and": ast.BitAnd, "np.bitwise_xor": ast.BitXor, "operator.or_": ast.BitOr, "operator.and_": ast.BitAnd}
 
 
+class _SliceZero(ast.NodeTransformer):
+    """x[0:n] -> x[:n] ; x[a:b:1] -> x[a:b]"""
+    def visit_Slice(self, n):
+        self.generic_visit(n)
+        if isinstance(n.lower, ast.Constant) and n.lower.value == 0 and not isinstance(n.lower.value, bool):
+            n.lower = None
+        if isinstance(n.step, ast.Constant) and n.step.value == 1:
+            n.step = None
+        return n
+
+
 class _Synonyms(ast.NodeTransformer):
     """exact synonyms, applied to every function: getattr(x, "name") -> x.name; vars(x) -> x.__dict__;
-    np.bitwise_or(a, b) -> a | b (likewise and/xor); np.invert(a) / np.bitwise_not(a) -> ~a"""
+    np.bitwise_or(a, b) -> a | b (likewise and/xor); np.invert(a) / np.bitwise_not(a) -> ~a; x[slice(a, b)] -> x[a:b];
+    f(*(a, b)) -> f(a, b)"""
+    def visit_Subscript(self, n):
+        self.generic_visit(n)
+        sl = n.slice
+        if isinstance(sl, ast.Call) and isinstance(sl.func, ast.Name) and sl.func.id == "slice" and 1 <= len(sl.args) <= 3 and not sl.keywords:
+            a = sl.args
+            none = lambda x: isinstance(x, ast.Constant) and x.value is None
+            lo = None if len(a) == 1 or none(a[0]) else a[0]
+            up = a[0] if len(a) == 1 else (None if none(a[1]) else a[1])
+            stp = a[2] if len(a) == 3 and not none(a[2]) else None
+            n.slice = ast.Slice(lower=lo, upper=up, step=stp)
+        return n
     def visit_Call(self, n):
         self.generic_visit(n)
         f = U(n.func)
+        if any(isinstance(a, ast.Starred) and isinstance(a.value, (ast.Tuple, ast.List)) for a in n.args):
+            args = []
+            for a in n.args:
+                if isinstance(a, ast.Starred) and isinstance(a.value, (ast.Tuple, ast.List)) and not any(isinstance(x, ast.Starred) for x in a.value.elts):
+                    args += list(a.value.elts)
+                else:
+                    args.append(a)
+            n.args = args
         if isinstance(n.func, ast.Name) and n.func.id == "getattr" and len(n.args) == 2 and not n.keywords and isinstance(n.args[1], ast.Constant) \
                 and isinstance(n.args[1].value, str) and n.args[1].value.isidentifier():
             return ast.copy_location(ast.Attribute(value=n.args[0], attr=n.args[1].value, ctx=ast.Load()), n)
@@ -266,6 +297,7 @@ def apply_synonyms(repo):
         before = ast.dump(f.node)
         f.node = _Synonyms().visit(f.node)
         f.node = _StmtSynonyms().visit(f.node)
+        f.node = _SliceZero().visit(f.node)
         ast.fix_missing_locations(f.node)
         if ast.dump(f.node) != before:
             n += 1
